@@ -163,6 +163,8 @@ structure RTSpec (d : DMRS) (m2 : MRS) (topLbl : Option Var) (sc : List (Var × 
   ivInj : ∀ n ∈ d.nodes, ∀ n' ∈ d.nodes, n.id ∉ quantStarts d → n'.id ∉ quantStarts d →
     ∀ iv iv', dlookup n.id idToIv = some iv → dlookup n'.id idToIv = some iv' →
       iv.vid = iv'.vid → n = n'
+  ivQInj : ∀ q ∈ quantStarts d, ∀ q' ∈ quantStarts d, ∀ iv iv', dlookup q idToIv = some iv →
+    dlookup q' idToIv = some iv' → iv.vid = iv'.vid → q = q'
   ivQ : ∀ q ∈ quantStarts d, ∀ iv, dlookup q idToIv = some iv →
     ∃ n ∈ d.nodes, n.id ∉ quantStarts d ∧ dlookup n.id idToIv = some iv ∧
       ∃ l ∈ d.links, l.role = RESTRICTION_ROLE ∧ l.start = q ∧ l.stop = n.id
@@ -228,7 +230,7 @@ theorem fromDmrs_spec (chosen : List Var) (d : DMRS) (hnd : d.ids.Nodup) (m2 : M
     { scopes := S, nsMem := ?_, nsComplete := nsArgsD_complete d ns h2, scMem := ?_,
       scComplete := scArgsD_complete d sc scs h3, len := by simp [b1, b3], pos := ?_, top := rfl,
       topVar := htopvar, hcons := ⟨news, b2, ?_, b9⟩, index := h5, ivNonQ := ?_, ivInj := i7,
-      ivQ := ?_ }⟩
+      ivQInj := ?_, ivQ := ?_ }⟩
   · intro x hx
     obtain ⟨l, hl, he, hn, _⟩ := nsArgsD_mem d ns h2 x hx
     exact ⟨l, hl, he, hn⟩
@@ -248,6 +250,26 @@ theorem fromDmrs_spec (chosen : List Var) (d : DMRS) (hnd : d.ids.Nodup) (m2 : M
     simp only
     rw [fillVars_lookup _ _ _ _ _ iv n.properties (by rw [b6 iv c4]; exact c5)]
     rfl
+  · intro q hq q' hq' iv iv' hiv hiv' hvid
+    have key : ∀ q ∈ quantStarts d, ∀ iv,
+        dlookup q (buildIvs d qmap (vfReserve (topNew d).2 sc)).1 = some iv →
+        ∃ n ∈ d.nodes, n.id ∉ quantStarts d ∧ dlookup n.id qmap = some q ∧
+          dlookup n.id (buildIvs d qmap (vfReserve (topNew d).2 sc)).1 = some iv := by
+      intro q hq iv hiv
+      rcases i6 q hq with hnone | ⟨n, hn, c1, c2, iv'', c3, c4⟩
+      · change dlookup q (buildIvs d qmap (vfReserve (topNew d).2 sc)).1 = _ at hnone
+        rw [hiv] at hnone
+        simp [dlookup] at hnone
+      · change dlookup q (buildIvs d qmap (vfReserve (topNew d).2 sc)).1 = _ at c3
+        rw [hiv] at c3
+        cases c3
+        exact ⟨n, hn, c1, c2, c4⟩
+    obtain ⟨n, hn, c1, c2, c3⟩ := key q hq iv hiv
+    obtain ⟨n', hn', c1', c2', c3'⟩ := key q' hq' iv' hiv'
+    have : n = n' := i7 n hn n' hn' c1 c1' iv iv' c3 c3' hvid
+    subst this
+    rw [c2] at c2'
+    simpa using c2'
   · intro q hq iv hiv
     rcases i6 q hq with hnone | ⟨n, hn, c1, c2, iv', c3, c4⟩
     · change dlookup q (buildIvs d qmap (vfReserve (topNew d).2 sc)).1 = _ at hnone
